@@ -35,3 +35,13 @@ VARIANTS += [
                                                               "                    last = pattern.groups\n                    actual_left, expected_left = (\n                        mActual.group(1), mExpected.group(1)\n                    )\n                    actual_right, expected_right = (\n                        mActual.group(last), mExpected.group(last)\n                    )\n"),
       kind='refactor'),
 ]
+
+UT = 'tdda/referencetest/utils.py'
+VARIANTS += [
+    M('C04', 'latin1-extensions-as-parenthesised-string', [E(UT, "    OTHER_TEXTS = ('txt',  'tex',", "    LATIN1_FILES = ('pdf')\n    OTHER_TEXTS = ('txt',  'tex',"),
+                                                          E(UT, "    ext = get_short_ext(path)\n    if ext == 'pdf':\n        return 'iso-8859-1'", "    ext = get_short_ext(path)\n    if ext in FileType.LATIN1_FILES:\n        return 'iso-8859-1'")],
+      rule='C04-WHOLESTR', key='LATIN1_FILES'),
+    M('C04', 'refactor-latin1-extensions-as-tuple', [E(UT, "    OTHER_TEXTS = ('txt',  'tex',", "    LATIN1_FILES = ('pdf',)\n    OTHER_TEXTS = ('txt',  'tex',"),
+                                                    E(UT, "    ext = get_short_ext(path)\n    if ext == 'pdf':\n        return 'iso-8859-1'", "    ext = get_short_ext(path)\n    if ext in FileType.LATIN1_FILES:\n        return 'iso-8859-1'")],
+      kind='refactor'),
+]
